@@ -92,9 +92,14 @@ def prune(keep):
         return
     now = time.time()
     ds = [d for d in os.listdir(BUILD_ROOT) if os.path.isdir(os.path.join(BUILD_ROOT, d)) and d != keep and not d.startswith("tlc-")]
-    ds.sort(key=lambda d: os.path.getmtime(os.path.join(BUILD_ROOT, d)), reverse=True)
+    def mtime(d):
+        try:
+            return os.path.getmtime(os.path.join(BUILD_ROOT, d))
+        except OSError:          # removed meanwhile by a concurrent check
+            return now
+    ds.sort(key=mtime, reverse=True)
     for d in ds[6:]:
-        if now - os.path.getmtime(os.path.join(BUILD_ROOT, d)) > 7200:
+        if now - mtime(d) > 7200:
             shutil.rmtree(os.path.join(BUILD_ROOT, d), ignore_errors=True)
 
 
